@@ -1572,6 +1572,13 @@ def tab4(units, R):
             bnd_states, bnd_key = an_.states, cps_[0][1]
     except AnalysisBroken:
         bnd_states = {}
+    if not found:
+        # no comparison with a string literal at all, but comparisons whose text comes out of a table: the literals are data
+        tabled = [c_ for c_ in fn.calls() if callee_name(c_) in ('strncmp', 'memcmp') and len(c_['args']) == 3 and
+                  not any(strip_casts(a_).get('k') == 'str' for a_ in c_['args'])]
+        if tabled:
+            raise AnalysisBroken('TAB4: %s: parse_value compares the input with text taken from %s; literals kept as data are not '
+                                 'evaluated by this rule' % (fn.where(tabled[0]), expr_str(strip_casts(tabled[0]['args'][1]))[:30]))
     for text, bit in LITERALS.items():
         if text not in found:
             R.ob('TAB4', fn, None, 'literal %s is recognised' % text, False, 'no comparison with "%s"' % text, key='lit:' + text)
@@ -3024,6 +3031,10 @@ def c02_structure(units, R):
             continue
         got = reach.get(cn, set())
         want = EXPECTED_FIRST_BYTES[cn]
+        if not got:
+            # the exploration never arrived at the call (a loop in front of the dispatch that it cannot get through with the byte
+            # in hand): nothing was learnt about the guard
+            raise AnalysisBroken('C02S: %s: the byte-wise exploration of parse_value does not reach the call of %s' % (fn.where(c), cn))
         R.ob('C02S', fn, c, '%s is entered exactly for first bytes %s' % (cn, ''.join(chr(b) for b in sorted(want))), set(got) == want,
              'guard admits %s' % (''.join(chr(b) if 32 < b < 127 else '\\x%02x' % b for b in sorted(got))[:60]), key='firstbyte:' + cn)
     missing = set(EXPECTED_FIRST_BYTES) - {callee_name(c) for c in fn.calls()}
